@@ -27,6 +27,8 @@ fn corpus(tier: Tier) -> Vec<(String, PProblem)> {
             ("core", Tier::Quick) => 40,
             ("core", _) => 400,
             ("places", _) => 400,
+            // reloads, shared resources, breaks, vehicles with two shifts: every problem
+            ("cond", _) => 400,
             (_, Tier::Quick) => 8,
             _ => 60,
         };
@@ -138,12 +140,15 @@ fn mutants(problem: &PProblem, solution: &Value) -> Vec<Mutant> {
                     let job_id = a["jobId"].as_str().unwrap_or("");
                     let tasks_of_job = problem.jobs.iter().find(|j| j.id == job_id).map_or(1, |j| j.tasks.len());
                     if tasks_of_job > 1 && acts.len() == 1 {
-                        let other = (ti + 1) % tours.len();
-                        let mut s = solution.clone();
-                        let moved = s["tours"][ti]["stops"].as_array_mut().unwrap().remove(si);
-                        let pos = stops_of(&s, other).min(1);
-                        s["tours"][other]["stops"].as_array_mut().unwrap().insert(pos, moved);
-                        out.push(mk("job-split", &["C02:job-split"], format!("tour {ti} stop {si} -> tour {other}"), problem, s));
+                        // every other tour is a target (incl. the tour of another shift of the same vehicle)
+                        for other in (0..tours.len()).filter(|o| *o != ti) {
+                            let mut s = solution.clone();
+                            let moved = s["tours"][ti]["stops"].as_array_mut().unwrap().remove(si);
+                            let pos = stops_of(&s, other).min(1);
+                            s["tours"][other]["stops"].as_array_mut().unwrap().insert(pos, moved);
+                            let same_vehicle = tours[other]["vehicleId"] == tour["vehicleId"];
+                            out.push(mk("job-split", &["C02:job-split"], format!("tour {ti} stop {si} -> tour {other}{}", if same_vehicle { " (same vehicle, other shift)" } else { "" }), problem, s));
+                        }
                     }
                 }
             }
@@ -210,6 +215,21 @@ fn mutants(problem: &PProblem, solution: &Value) -> Vec<Mutant> {
             p.relations = vec![PRelation { kind: "strict".into(), jobs: vec![ids[1].clone(), ids[0].clone()], vehicle_id: this_vehicle.to_string(), shift_index: tour["shiftIndex"].as_u64().map(|x| x as usize) }];
             out.push(mk("broken-relation", &["C01:relation"], format!("strict [{}, {}] on {this_vehicle}", ids[1], ids[0]), &p, solution.clone()));
         }
+        // relation without shiftIndex (= shift 0) on a job which a LATER shift of the vehicle serves (problem side); the tour is
+        // listed first so that "the vehicle's first tour" is not the one the relation means
+        let shift_of_tour = tour["shiftIndex"].as_u64().unwrap_or(0);
+        if shift_of_tour > 0 && problem.relations.is_empty() {
+            if let Some(first) = ids.first() {
+                for kind in ["sequence", "strict"] {
+                    let mut p = problem.clone();
+                    p.relations = vec![PRelation { kind: kind.into(), jobs: vec![first.clone()], vehicle_id: this_vehicle.to_string(), shift_index: None }];
+                    let mut s = solution.clone();
+                    let moved = s["tours"].as_array_mut().unwrap().remove(ti);
+                    s["tours"].as_array_mut().unwrap().insert(0, moved);
+                    out.push(mk("broken-relation", &["C01:relation"], format!("{kind} [{first}] on {this_vehicle} without shiftIndex, served by shift {shift_of_tour}"), &p, s));
+                }
+            }
+        }
         // misplaced break: the break window of the shift is moved away from where the break was taken (problem side)
         let has_break = tour["stops"].as_array().is_some_and(|s| s.iter().any(|st| st["activities"].as_array().is_some_and(|a| a.iter().any(|x| x["type"] == "break"))));
         if has_break {
@@ -223,6 +243,22 @@ fn mutants(problem: &PProblem, solution: &Value) -> Vec<Mutant> {
             }
         }
     }
+    // shared resource: capacity lowered below what all tours draw from it together, not below any single visit (problem side)
+    for (ri, (id, cap)) in problem.resources.iter().enumerate() {
+        let visits: Vec<i64> = tours
+            .iter()
+            .flat_map(|t| t["stops"].as_array().cloned().unwrap_or_default())
+            .filter(|st| st["activities"].as_array().is_some_and(|a| a.iter().any(|x| x["type"] == "reload")))
+            .filter_map(|st| st["load"][0].as_i64())
+            .collect();
+        let total: i64 = visits.iter().sum();
+        let biggest = visits.iter().copied().max().unwrap_or(0);
+        if visits.len() >= 2 && total - 1 >= biggest && total >= 1 && cap.first().is_some_and(|c| *c >= total) {
+            let mut p = problem.clone();
+            p.resources[ri].1[0] = total - 1;
+            out.push(mk("resource-overdrawn", &["C01:resource"], format!("resource {id}: capacity {} for {visits:?}", total - 1), &p, solution.clone()));
+        }
+    }
     // overall statistic +-2
     for key in ["distance", "duration"] {
         let mut s = solution.clone();
@@ -230,6 +266,41 @@ fn mutants(problem: &PProblem, solution: &Value) -> Vec<Mutant> {
         out.push(mk("overall-statistic", &["C03:statistic-total"], key.to_string(), problem, s));
     }
     out
+}
+
+/// A consistent solution which serves the parts of the two-task job 'ss' by two tours: the solution of the twin problem in
+/// which the parts are separate jobs, with the ids renamed back. Times, loads and statistics are right; only the job is split.
+fn twin_split(problem: &PProblem, cfg: &SolveCfg) -> Option<Mutant> {
+    let ji = problem.jobs.iter().position(|j| j.id == "ss" && j.tasks.len() == 2)?;
+    let mut twin = problem.clone();
+    let ss = twin.jobs.remove(ji);
+    for (k, t) in ss.tasks.iter().enumerate() {
+        twin.jobs.push(PJob { id: format!("ss_{k}"), tasks: vec![t.clone()], skills: None, group: None, compatibility: None, value: None });
+    }
+    let solved = solve(&twin, cfg, None, None).ok()?;
+    let mut s = solved.json;
+    let mut tours_with_part = vec![];
+    for (ti, tour) in s["tours"].as_array_mut()?.iter_mut().enumerate() {
+        for stop in tour["stops"].as_array_mut()?.iter_mut() {
+            for a in stop["activities"].as_array_mut()?.iter_mut() {
+                if a["jobId"].as_str().is_some_and(|id| id.starts_with("ss_")) {
+                    a["jobId"] = json!("ss");
+                    tours_with_part.push(ti);
+                }
+            }
+        }
+    }
+    if tours_with_part.len() != 2 || tours_with_part[0] == tours_with_part[1] {
+        return None;
+    }
+    let same_vehicle = s["tours"][tours_with_part[0]]["vehicleId"] == s["tours"][tours_with_part[1]]["vehicleId"];
+    Some(Mutant {
+        class: "job-split",
+        confirms: &["C02:job-split"],
+        site: format!("twin problem: parts of 'ss' served by tours {tours_with_part:?}{}", if same_vehicle { " (same vehicle, two shifts)" } else { "" }),
+        problem: problem.clone(),
+        solution: s,
+    })
 }
 
 fn judge_pair(family: &str, problem: &PProblem, cfg: &SolveCfg, report: &mut Report) {
@@ -280,7 +351,9 @@ fn judge_pair(family: &str, problem: &PProblem, cfg: &SolveCfg, report: &mut Rep
         Err(e) => report.violation(Violation::new(format!("checker-error:{family}"), e, scen.clone())),
     }
     // rejection
-    for m in mutants(problem, &solved.json) {
+    let mut all_mutants = mutants(problem, &solved.json);
+    all_mutants.extend(twin_split(problem, cfg));
+    for m in all_mutants {
         report.add_count("mutants_generated", 1);
         let findings = oracle::check(&m.problem, &m.solution, &OracleOptions { tol });
         let confirmed = findings.iter().any(|f| m.confirms.iter().any(|c| f.rule.starts_with(c)));
